@@ -477,6 +477,18 @@ func init() {
 		injCfg := cfg(false, false)
 		injCfg.Inject = map[string]string{"X-Env": "prod", "Authorization": "Basic injected"}
 		emit(fwCase{Cfg: injCfg, Reqs: []fwReq{R("session", "GET", "/x", []string{"Authorization: client", "X-Env: dev"}, nil, ""), R("none", "GET", "/health", []string{"X-Env: dev"}, nil, "")}})
+		// configured header injection next to signing, and injection of names the proxy asserts itself: the upstream gets the
+		// session's identity (the configured value never replaces it), nothing on an unauthenticated skip-auth request, and the
+		// signatures cover what was sent
+		for _, sg := range [][2]bool{{true, true}, {true, false}, {false, true}, {false, false}} {
+			ic := cfg(sg[0], sg[1])
+			ic.Inject = map[string]string{"X-Env": "prod", "Authorization": "Basic injected", "Date": "injected-date"}
+			emit(fwCase{Cfg: ic, Reqs: []fwReq{R("session", "GET", "/x", []string{"Authorization: client", "X-Env: dev"}, nil, ""), R("session", "POST", "/y", nil, nil, "body"),
+				R("none", "GET", "/health", []string{"X-Env: dev", "Authorization: client"}, nil, "")}})
+			ic2 := cfg(sg[0], sg[1])
+			ic2.Inject = map[string]string{"X-Forwarded-Email": "service-account@injected.example", "x-forwarded-groups": "admins", "X-FORWARDED-USER": "svc", "X-Forwarded-Access-Token": "injected-token"}
+			emit(fwCase{Cfg: ic2, Reqs: []fwReq{R("session", "GET", "/x", nil, nil, ""), R("session", "GET", "/x", spoof, []string{"a=b"}, ""), R("none", "GET", "/health", nil, nil, ""), R("none", "GET", "/health", spoof, nil, "")}})
+		}
 		// random
 		names := []string{"X-Forwarded-Email", "X-Forwarded-User", "X-Forwarded-Groups", "X-Forwarded-Access-Token", "Authorization", "Content-Type", "Date", "Content-Md5", "X-Other", "Cookie", "Te", "Upgrade"}
 		spell := func(n string) string {
@@ -493,6 +505,14 @@ func init() {
 		targets := []string{"/", "/a/b?q=1", "/health", "/public/p?x=y", "/x%20y", "/a%2Fb", "/p?a=b&c=%3D"}
 		for k := 0; k < n; k++ {
 			c := fwCase{Cfg: cfg(rng.Intn(3) > 0, rng.Intn(2) == 0)}
+			if rng.Intn(4) == 0 {
+				c.Cfg.Inject = map[string]string{}
+				for j := 0; j < 1+rng.Intn(3); j++ {
+					if nm := names[rng.Intn(len(names))]; nm != "Te" && nm != "Upgrade" && nm != "Cookie" {
+						c.Cfg.Inject[spell(nm)] = "inj-" + vals[rng.Intn(len(vals))]
+					}
+				}
+			}
 			nr := 3 + rng.Intn(6)
 			for i := 0; i < nr; i++ {
 				r := fwReq{Auth: []string{"session", "session", "none"}[rng.Intn(3)], Method: []string{"GET", "GET", "POST", "PUT", "DELETE", "HEAD"}[rng.Intn(6)], Target: targets[rng.Intn(len(targets))], Host: "app.x.io"}
